@@ -417,6 +417,22 @@ macro_rules! sizes {
         }
     };
 }
+/// larger buffers (rows and columns beyond 255, more than 256 bytes), explored one level less deep
+macro_rules! big_sizes {
+    ($c:ty) => {
+        fb_impl!(Le300x2, $c, LittleEndianMsb0, false, 300, 2, 0);
+        fb_impl!(Be2x300, $c, BigEndianLsb0, true, 2, 300, 1);
+        fb_impl!(Be67x5, $c, BigEndianLsb0, true, 67, 5, 0);
+        pub fn run_big(run: &mut Run, depth: usize) {
+            explore_one(run, depth, || Box::new(<Le300x2>::new()));
+            explore_one(run, depth, || Box::new(<Be2x300>::new()));
+            explore_one(run, depth, || Box::new(<Be67x5>::new()));
+        }
+    };
+}
+mod b1 { use super::*; big_sizes!(BinaryColor); }
+mod b4 { use super::*; big_sizes!(Gray4); }
+mod b16 { use super::*; big_sizes!(Rgb565); }
 mod c1 { use super::*; sizes!(BinaryColor); }
 mod c2 { use super::*; sizes!(Gray2); }
 mod c4 { use super::*; sizes!(Gray4); }
@@ -450,11 +466,20 @@ fn explore_one(run: &mut Run, depth: usize, make: fn() -> Box<dyn Fb>) {
 fn run_part(run: &mut Run) {
     let depth = run.tier.pick(3, 4);
     match run.part.as_str() {
-        "1bpp" => c1::run_all(run, depth),
+        "1bpp" => {
+            c1::run_all(run, depth);
+            b1::run_big(run, depth - 1);
+        }
         "2bpp" => c2::run_all(run, depth),
-        "4bpp" => c4::run_all(run, depth),
+        "4bpp" => {
+            c4::run_all(run, depth);
+            b4::run_big(run, depth - 1);
+        }
         "8bpp" => c8::run_all(run, depth),
-        "16bpp" => c16::run_all(run, depth),
+        "16bpp" => {
+            c16::run_all(run, depth);
+            b16::run_big(run, depth - 1);
+        }
         "24bpp" => c24::run_all(run, depth),
         "32bpp" => c32::run_all(run, depth),
         p => panic!("unknown part {p}"),
@@ -465,7 +490,7 @@ fn main() {
     egverif::fw::main(Prop {
         id: "C10",
         level: "model_checking",
-        rule: "explicit-state BFS over write histories on 140 real framebuffer configurations beside a map model (key = the byte array; the model of a state that passed its invariants equals an independent decode of the bytes, so equal bytes have equal futures); on every state: pixel() on the area grown by 1, None outside, tail bytes untouched, data() pixel bits equal an independent packing of the model in the documented layout, as_image() drawn equals the model; writes completely outside change no byte",
+        rule: "explicit-state BFS over write histories on 140 small and 9 larger (300x2, 2x300, 67x5 at 1, 4 and 16 bpp, one level less deep) real framebuffer configurations beside a map model (key = the byte array; the model of a state that passed its invariants equals an independent decode of the bytes, so equal bytes have equal futures); on every state: pixel() on the area grown by 1, None outside, tail bytes untouched, data() pixel bits equal an independent packing of the model in the documented layout, as_image() drawn equals the model; writes completely outside change no byte",
         assumptions: &["padding bits of partially used row bytes are not asserted", "bounded to the listed configurations, action alphabet and depth"],
         parts: |_| ["1bpp", "2bpp", "4bpp", "8bpp", "16bpp", "24bpp", "32bpp"].iter().map(|p| PartSpec::new(p, "verif")).collect(),
         run_part,
